@@ -457,6 +457,41 @@ def transposeV2 {α} (M : Mat α) (indicesMax nProc : Nat) (B : Budget) :
       transposeOnDisk M indicesMax (some sl) B
     return joinParts parts
 
+/-- `chunk_size = 1000000` of the joining loop of
+`_transpose_sparse_matrix_on_disk_v2` -/
+def joinBlockSize : Nat := 1000000
+
+/-- the inner loop of the joining step,
+`for src0 in range(0, src_n, chunk_size): dst1 = dst0 + (src1-src0);
+dst[dst0:dst1] = src[src0:src1]; dst0 = dst1`; returns the array and the
+advanced destination offset -/
+def blockCopyInto {β} (blk : Nat) (dst : List β) (dst0 : Nat) (src : List β) : List β × Nat :=
+  (chunks src.length blk).foldl
+    (fun st p => (writeAt st.1 st.2 (slice src p.1 p.2), st.2 + (p.2 - p.1))) (dst, dst0)
+
+/-- the joining step with its addressing: `indices` / `data` of the total size
+are created (zero-filled) and every worker's arrays are copied in blocks of
+`blk` entries at the running offset `indices_idx` (one offset for both
+arrays); the pointer array is the one of `joinParts` -/
+def joinBlocked {α} (zero : α) (blk : Nat) (parts : List (Mat α)) : Mat α :=
+  let total := (parts.map (·.indices.length)).sum
+  let r := parts.foldl
+    (fun st P => ((blockCopyInto blk st.1 st.2.2 P.indices).1,
+                  (blockCopyInto blk st.2.1 st.2.2 P.data).1,
+                  st.2.2 + P.indices.length))
+    (List.replicate total 0, List.replicate total zero, 0)
+  ⟨(joinParts parts).indptr, r.1, r.2.1⟩
+
+/-- `_transpose_sparse_matrix_on_disk_v2` with the blockwise joining loop -/
+def transposeV2Blocked {α} (zero : α) (M : Mat α) (indicesMax nProc : Nat) (B : Budget)
+    (blk : Nat) : Except SpErr (Mat α) := do
+  let step := ceilDiv indicesMax nProc
+  if step == 0 then .error .zeroStep
+  else
+    let parts ← (chunks indicesMax step).mapM fun sl =>
+      transposeOnDisk M indicesMax (some sl) B
+    return joinBlocked zero blk parts
+
 /-! ### file-level reshaping (`anndata_utils.py`) -/
 
 /-- `shuffle_csr_h5ad_rows(new_row_order)`: `dst_indptr[-1] = src_indptr[-1]` -/
